@@ -1511,8 +1511,9 @@ def detect_wc_close(src_dir):
     return v
 
 
-# the signature of the modelled methods on the tree the model was written against (see shape_signature);
-# the instructions of Model/ChanFault.v transliterate exactly these statements
+# the signature of the modelled methods on the tree the model was written against (see shape_signature;
+# /repo at da3bf3a, i.e. with the repairs of F17 and F18); the instructions of Model/ChanFault.v
+# transliterate exactly these statements
 EXPECTED_SHAPE = {'channel.py:HTTPChannel.__init__': ['w:outbufs', 'w:sendbuf_len call:getsockopt()', 'n:map call:__init__()', 'w:connected const:True', 'w:requests'],
  'channel.py:HTTPChannel._flush_exception': ['if(){',
                                              'try{',
@@ -1670,7 +1671,7 @@ EXPECTED_SHAPE = {'channel.py:HTTPChannel.__init__': ['w:outbufs', 'w:sendbuf_le
                                           'w:current_outbuf_count',
                                           'w:total_outbufs_len',
                                           'w:sent_continue const:True',
-                                          'call:_flush_some()',
+                                          'call:_flush_some(do_close=do_close)',
                                           '}'],
  'channel.py:HTTPChannel.service': ['r:requests',
                                     'if(r:error){',
@@ -1728,7 +1729,7 @@ EXPECTED_SHAPE = {'channel.py:HTTPChannel.__init__': ['w:outbufs', 'w:sendbuf_le
                                     '}else{',
                                     'if(bool:And r:connected r:request cmp:IsNot const:None r:request r:expect_continue r:request r:headers_finished '
                                     'not r:sent_continue){',
-                                    'call:send_continue()',
+                                    'const:False call:send_continue(do_close=False)',
                                     '}',
                                     '}',
                                     '}',
@@ -1783,7 +1784,18 @@ EXPECTED_SHAPE = {'channel.py:HTTPChannel.__init__': ['w:outbufs', 'w:sendbuf_le
                                             'return()',
                                             '}',
                                             'call:fix_addr()',
-                                            'r:_map call:channel_class()'],
+                                            'try{',
+                                            'r:_map call:channel_class()',
+                                            '}except(OSError){',
+                                            'if(){',
+                                            'const:True',
+                                            '}',
+                                            'try{',
+                                            'call:close()',
+                                            '}except(OSError){',
+                                            'pass',
+                                            '}',
+                                            '}'],
  'server.py:BaseWSGIServer.handle_read': ['pass'],
  'server.py:BaseWSGIServer.run': ['try{', 'r:_map', '}except((SystemExit, KeyboardInterrupt)){', '}'],
  'server.py:BaseWSGIServer.writable': ['return(const:False)'],
@@ -2061,24 +2073,11 @@ EXPECTED_SHAPE = {'channel.py:HTTPChannel.__init__': ['w:outbufs', 'w:sendbuf_le
 
 
 def shape_audit(src_dir):
-    """-> (list of methods whose signature differs from EXPECTED_SHAPE, signature).  The do_close knob of the
-    worker-side send_continue() is not part of the comparison: it is read by detect_wc_close and given to the model."""
-    def norm(key, toks):
-        if key.endswith("HTTPChannel.service"):
-            return [t.replace("const:False call:send_continue(do_close=False)", "call:send_continue()")
-                     .replace("const:True call:send_continue(do_close=True)", "call:send_continue()") for t in toks]
-        if key.endswith("HTTPChannel.send_continue"):
-            return [t.replace("call:_flush_some(do_close=do_close)", "call:_flush_some()") for t in toks]
-        if key.endswith("BaseWSGIServer.handle_accept"):
-            # where channel_class(...) stands relative to the try is read by detect_init_guarded; the audit
-            # compares the multiset of statements (plus an optional close() of the accepted socket in the handler)
-            return sorted(t for t in toks if t not in ("call:close()",))
-        return toks
+    """-> (list of methods whose signature differs from EXPECTED_SHAPE, signature).  Exact comparison: the two
+    knobs the model takes from the source (detect_wc_close, detect_init_guarded) are part of the shape too."""
     sig = shape_signature(src_dir)
-    diff = []
-    for k in sorted(set(sig) | set(EXPECTED_SHAPE)):
-        if norm(k, sig.get(k, ["<missing>"])) != norm(k, EXPECTED_SHAPE.get(k, ["<unexpected>"])):
-            diff.append(k)
+    diff = [k for k in sorted(set(sig) | set(EXPECTED_SHAPE))
+            if sig.get(k, ["<missing>"]) != EXPECTED_SHAPE.get(k, ["<unexpected>"])]
     return diff, sig
 
 
@@ -2158,7 +2157,7 @@ def make_world(case, schedule=(), policy=None, max_steps=4000):
 
 def monitor(world, reference_wire=None):
     """The executable form of C13's predicates over one real run.
-    -> (problems, in_f18_class): problems is a list of (kind, detail)"""
+    -> (problems, worker_side_send_continue): problems is a list of (kind, detail)"""
     ev = world.sched.events
     problems = []
     wcont = any(e[1] == "send_continue" and e[0] != "io" for e in ev)
@@ -2257,11 +2256,39 @@ def listener_monitor(world, exps):
     return problems, setup_fault
 
 
-# A schedule of the scheduler world on which finding F18 kills the I/O loop (found by seeded random search,
-# kept as a regression input): scenario get-expect-pipelined, the third send() answers EPIPE; the I/O thread
-# has built its select lists (fd 7 writable: the worker holds outbuf_lock with output pending) when the worker
-# runs send_continue() -> handle_close() -> socket.close(); select() then refuses the closed descriptor.
+# A schedule of the scheduler world on which finding F18 (before its repair, /repo da3bf3a) killed the I/O loop
+# (found by seeded random search, kept as a regression input): scenario get-expect-pipelined, the third send()
+# answers EPIPE; the I/O thread has built its select lists (fd 7 writable: the worker holds outbuf_lock with
+# output pending) when the worker ran send_continue() -> handle_close() -> socket.close(); select() then refused
+# the closed descriptor.
 F18_LOOP_DEATH_CASE = {"scenario": "get-expect-pipelined", "send_plans": {"7": [None, None, ["err", errno.EPIPE]]},
                        "recv_faults": {}}
 F18_LOOP_DEATH_SCHEDULE = [0, 0, 0, 0, 1, 1, 1, 1, 1, 1, 1, 1, 0, 0, 0, 0, 0, 0, 0, 0, 0, 1, 0, 0, 0, 0, 0, 0, 0, 0, 0, 0,
                            0, 0, 0, 0, 0, 0]
+
+
+def write_knobs(src_dir, out_path):
+    """Regenerate coq/Gen/GenChanKnobs.v from the source: the two facts the model takes from handle_accept and
+    service()/send_continue().  Fails closed: when a shape is not understood the worst value is written, so the
+    headline theorems of Props/C13.v do not compile.  -> (wc_close, init_guarded, problems)"""
+    problems = []
+    try:
+        wc = detect_wc_close(src_dir)
+    except (ValueError, OSError) as e:
+        wc, problems = True, problems + ["wc_close: %s" % e]
+    try:
+        ig = detect_init_guarded(src_dir)
+    except (ValueError, OSError) as e:
+        ig, problems = False, problems + ["init_guarded: %s" % e]
+    txt = ("(* GENERATED by harness/chanfault.write_knobs from src/waitress/{channel,server}.py on every run of\n"
+           "   checks/C13.py -- do not edit.\n"
+           "   src_wc_close     : the do_close with which HTTPChannel.service() reaches _flush_some through send_continue()\n"
+           "   src_init_guarded : BaseWSGIServer.handle_accept calls channel_class(...) inside a try that catches OSError *)\n"
+           "Definition src_wc_close : bool := %s.\nDefinition src_init_guarded : bool := %s.\n"
+           % ("true" if wc else "false", "true" if ig else "false"))
+    old = open(out_path).read() if os.path.exists(out_path) else None
+    if old != txt:
+        os.makedirs(os.path.dirname(out_path), exist_ok=True)
+        with open(out_path, "w") as f:
+            f.write(txt)
+    return wc, ig, problems
